@@ -2,6 +2,7 @@ package props
 
 import (
 	"fmt"
+	"go/token"
 
 	"golang.org/x/tools/go/ssa"
 
@@ -233,6 +234,98 @@ func runC39(c *eng.Ctx) {
 		c.Ob("ORDER-delete", eng.FuncName(fn)+" files-under-own-name", ok && okPar, fn.Pos(), "attaching records the node in the new parent's children under the node's own name and sets its parent")
 	}
 	c.Expect("ORDER-delete", 6)
+
+	// ---------------------------------------------------------------- SET-GET
+	// the lookup walks the path with findChild and answers the node of the last element, nil as soon as an element
+	// is missing; the store walks with ensureChild and files the given node at the last element; ensure answers the
+	// cached node when there is one and otherwise files and answers the freshly generated one
+	if fn := c.NeedFunc("weed/filesys", "(*FsCache).doGetFsNode"); fn != nil {
+		missing := eng.PassEdges(fn, func(cond ssa.Value) (bool, bool) {
+			b, ok := cond.(*ssa.BinOp)
+			if !ok || (b.Op != token.EQL && b.Op != token.NEQ) || !eng.IsNilConst(b.Y) || !eng.MentionsCall(b.X, "filesys.FsNode).findChild") {
+				return false, false
+			}
+			return true, b.Op == token.EQL
+		})
+		okMiss := len(missing) > 0
+		for _, st := range startsOf(missing) {
+			if hit, _ := eng.Search(st, func(in ssa.Instruction) bool {
+				r, ok := in.(*ssa.Return)
+				return ok && !eng.IsNilConst(r.Results[0])
+			}, eng.SearchOpt{}); hit != nil {
+				okMiss = false
+			}
+		}
+		c.Ob("SET-GET", eng.FuncName(fn)+" missing-element-is-nil", okMiss, fn.Pos(), "a path with an element that is not cached answers nil")
+		okNode := false
+		for _, r := range eng.Find(fn, eng.IsReturn) {
+			if eng.IsField(r.(*ssa.Return).Results[0], "FsNode.node") {
+				okNode = true
+			}
+		}
+		c.Ob("SET-GET", eng.FuncName(fn)+" answers-the-filed-node", okNode, fn.Pos(), "a cached path answers the node filed at its last element")
+	}
+	if fn := c.NeedFunc("weed/filesys", "(*FsCache).doSetFsNode"); fn != nil {
+		sts := eng.Find(fn, eng.StoreToField("FsNode.node"))
+		ok := len(sts) == 1 && eng.IsParamLike(sts[0].(*ssa.Store).Val, "node") && len(eng.Find(fn, eng.PlainCallTo("filesys.FsNode).ensureChild"))) == 1
+		if ok {
+			if hit, _ := eng.Search(eng.Entry(fn), eng.IsReturn, eng.SearchOpt{Barrier: eng.Is(sts[0])}); hit != nil {
+				ok = false
+			}
+		}
+		c.Ob("SET-GET", eng.FuncName(fn)+" files-the-given-node", ok, fn.Pos(), "the given node is filed at the element the path leads to (created on the way), on every path")
+	}
+	if fn := c.NeedFunc("weed/filesys", "(*FsCache).SetFsNode"); fn != nil {
+		calls := eng.Find(fn, eng.PlainCallTo("filesys.FsCache).doSetFsNode"))
+		ok := len(calls) == 1 && eng.IsParamLike(eng.Arg(calls[0].(*ssa.Call), 0), "path") && eng.IsParamLike(eng.Arg(calls[0].(*ssa.Call), 1), "node")
+		c.Ob("SET-GET", eng.FuncName(fn)+" stores-its-arguments", ok, fn.Pos(), "SetFsNode files its node under its path")
+	}
+	if fn := c.NeedFunc("weed/filesys", "(*FsCache).EnsureFsNode"); fn != nil {
+		get := eng.Find(fn, eng.PlainCallTo("filesys.FsCache).doGetFsNode"))
+		set := eng.Find(fn, eng.PlainCallTo("filesys.FsCache).doSetFsNode"))
+		ok := len(get) == 1 && len(set) == 1
+		if ok {
+			got := ssa.Value(get[0].(*ssa.Call))
+			cached := eng.PassEdges(fn, func(cond ssa.Value) (bool, bool) {
+				b, isB := cond.(*ssa.BinOp)
+				if !isB || (b.Op != token.EQL && b.Op != token.NEQ) || b.X != got || !eng.IsNilConst(b.Y) {
+					return false, false
+				}
+				return true, b.Op == token.NEQ
+			})
+			// with a cached node nothing is generated or stored, and the cached node is the answer
+			ok = len(cached) > 0
+			for _, st := range startsOf(cached) {
+				if hit, _ := eng.Search(st, eng.AnyOf(set), eng.SearchOpt{}); hit != nil {
+					ok = false
+				}
+				if hit, _ := eng.Search(st, func(in ssa.Instruction) bool {
+					r, isR := in.(*ssa.Return)
+					if !isR {
+						return false
+					}
+					for _, v := range eng.Resolve(r.Results[0]) {
+						if v != got {
+							return true
+						}
+					}
+					return false
+				}, eng.SearchOpt{}); hit != nil {
+					ok = false
+				}
+			}
+			// without one, the generated node is stored under the path and answered
+			gen := eng.Arg(set[0].(*ssa.Call), 1)
+			if call, isCall := eng.Unwrap(gen).(*ssa.Call); !isCall || eng.ParamName(call.Call.Value) != "genNodeFn" || !eng.IsParamLike(eng.Arg(set[0].(*ssa.Call), 0), "path") {
+				ok = false
+			}
+			if hit, _ := eng.Search(eng.Entry(fn), eng.AnyOf(set), eng.SearchOpt{Cut: cached}); hit == nil {
+				ok = false
+			}
+		}
+		c.Ob("SET-GET", eng.FuncName(fn)+" cached-or-generated", ok, fn.Pos(), "EnsureFsNode answers the cached node when there is one (generating and storing nothing) and otherwise stores and answers the generated node")
+	}
+	c.Expect("SET-GET", 5)
 }
 
 func isReturnBlock(b *ssa.BasicBlock) bool {
